@@ -78,6 +78,40 @@ pub fn check_event(rep: &mut Report, rng: &mut Rng, e: &SemEvent, other_bytes: &
     };
     let e0: &Event = &owned;
     let e0_bytes = e0.as_bytes().to_vec();
+    // 0. the same event built from parts into output buffers with prior contents: byte-identical too
+    for mode in 1..5u64 {
+        let n = e0_bytes.len() + (mode as usize % 3);
+        let mut buf = prefill(rng, mode, n, other_bytes);
+        let tags = match e.owned_tags() {
+            Ok(t) => t,
+            Err(_) => break,
+        };
+        let r = catch(|| {
+            Event::from_parts(
+                pocket_types::Id::from_bytes(e.id), pocket_types::Kind::from_u16(e.kind), pocket_types::Pubkey::from_bytes(e.pubkey),
+                pocket_types::Sig::from_bytes(e.sig), &tags, pocket_types::Time::from_u64(e.created_at), e.content.as_bytes(), &mut buf,
+            )
+            .map(|ev| ev.as_bytes().to_vec())
+        });
+        rep.count("from_parts_into_dirty_buffers");
+        if let Ok(Ok(b)) = r {
+            if b != e0_bytes {
+                let at = first_diff_at(&b, &e0_bytes);
+                let region = match at {
+                    Some(p) if (6..8).contains(&p) => "padding-bytes-6..8",
+                    Some(p) if p < 144 => "header",
+                    Some(_) => "tags-or-content",
+                    None => "length",
+                };
+                rep.finding(
+                    &format!("from_parts-not-canonical:{region}"),
+                    &format!("from_parts into a buffer with prior contents (mode {mode}) differs from from_parts into a zeroed one: {}", first_diff(&b, &e0_bytes)),
+                    replay_of(e, json!({"prefill":mode})),
+                );
+                break;
+            }
+        }
+    }
     // 1. serialise, read back with the independent parser
     let j = match catch(|| e0.as_json()) {
         Ok(Ok(j)) => j,
@@ -227,7 +261,7 @@ pub fn run(args: &Args) -> Report {
     let mut rng = Rng::new(args.seed() ^ 0xC02);
     let sample = args.get("sample").map(|_| args.get_u64("sample", 0));
     let n = sample.unwrap_or(if args.thorough() { 100_000 } else { 2_000 });
-    let renderings = if args.thorough() { 8 } else { 6 };
+    let renderings = if under_miri() { 2 } else if args.thorough() { 8 } else { 6 };
     let mut other = rand_event(&mut rng).to_owned().map(|o| o.as_bytes().to_vec()).unwrap_or_default();
     // deterministic shapes first
     let (e1, e2) = crate::c01::base_events();
@@ -260,7 +294,7 @@ pub fn run(args: &Args) -> Report {
         shapes.push(e);
     }
     if sample.is_some() {
-        shapes.truncate(4);
+        shapes.truncate(3);
     }
     for e in shapes.iter() {
         check_event(&mut rep, &mut rng, e, &other, renderings);
